@@ -23,3 +23,21 @@ package decode
 //@ contract (buffer).decodeZeroToOne
 //@   ensures [C08.dec.z2o.n C02.dec.z2o.n C03.dec.z2o] (= n (spec.numN (arr b) (off b) (len b)))
 //@   ensures [C08.dec.z2o.value C03.dec.z2o] (=> (not (= n (int 0))) (= f (spec.z2oV (arr b) (off b))))
+
+//@ uses colors
+
+//@ contract (buffer).decodeColor1
+//@   ensures [C09.dec.buf1.n C02.dec.color.n C03.dec.color1] (= n (ite (bvult (len b) (int 1)) (int 0) (int 1)))
+//@   ensures [C09.dec.buf1 C03.dec.color1] (=> (not (= n (int 0))) (= c (spec.color1 (at b (int 0)))))
+//@ contract (buffer).decodeColor2
+//@   ensures [C09.dec.buf2.n C02.dec.color.n C03.dec.color2] (= n (ite (bvult (len b) (int 2)) (int 0) (int 2)))
+//@   ensures [C09.dec.buf2 C03.dec.color2] (=> (not (= n (int 0))) (= c (spec.color2 (at b (int 0)) (at b (int 1)))))
+//@ contract (buffer).decodeColor3Direct
+//@   ensures [C09.dec.buf3d.n C02.dec.color.n C03.dec.color3d] (= n (ite (bvult (len b) (int 3)) (int 0) (int 3)))
+//@   ensures [C09.dec.buf3d C03.dec.color3d] (=> (not (= n (int 0))) (= c (spec.color3d (at b (int 0)) (at b (int 1)) (at b (int 2)))))
+//@ contract (buffer).decodeColor4
+//@   ensures [C09.dec.buf4.n C02.dec.color.n C03.dec.color4] (= n (ite (bvult (len b) (int 4)) (int 0) (int 4)))
+//@   ensures [C09.dec.buf4 C03.dec.color4] (=> (not (= n (int 0))) (= c (spec.color4 (at b (int 0)) (at b (int 1)) (at b (int 2)) (at b (int 3)))))
+//@ contract (buffer).decodeColor3Indirect
+//@   ensures [C09.dec.buf3i.n C02.dec.color.n C03.dec.color3i] (= n (ite (bvult (len b) (int 3)) (int 0) (int 3)))
+//@   ensures [C09.dec.buf3i C03.dec.color3i] (=> (not (= n (int 0))) (= c (spec.color3i (at b (int 0)) (at b (int 1)) (at b (int 2)))))
